@@ -23,14 +23,18 @@ def _delay_args(txd, rxd):
     return ", ".join(a)
 
 
-def flag_design(txd, rxd, contexts):
+def flag_design(txd, rxd, contexts, dq=False):
     lines = [HEADER, "class W(cohdl.Entity):", "    clk = Port.input(Bit)", "    reset = Port.input(Bit)",
              "    p_try = Port.input(Bit)", "    c_ready = Port.input(Bit)",
-             "    obs_clear = Port.output(Bit, default=False)", "    recv = Port.output(Bit, default=False)", "    def architecture(self):",
+             "    obs_clear = Port.output(Bit, default=False)", "    obs_set = Port.output(Bit, default=False)", "    recv = Port.output(Bit, default=False)", "    def architecture(self):",
              "        ctx = std.SequentialContext(std.Clock(self.clk), std.Reset(self.reset))",
              f"        flag = std.SyncFlag({_delay_args(txd, rxd)})"]
     prod = ["self.obs_clear ^= flag.is_clear()", "if self.p_try:", "    flag.set()"]
     cons = ["if self.c_ready and flag.is_set():", "    flag.clear()", "    self.recv ^= True"]
+    if dq:
+        # every side queries the flag more than once before it uses it (each query must see the same, driven, copy)
+        prod = ["self.obs_clear ^= flag.is_clear()", "if self.p_try and flag.is_clear():", "    flag.set()"]
+        cons = ["self.obs_set ^= flag.is_set()", "if self.c_ready and flag.is_set():", "    flag.clear()", "    self.recv ^= True"]
     if contexts == 2:
         lines += ["        @ctx", "        def producer():"] + ["            " + l for l in prod]
         lines += ["        @ctx", "        def consumer():"] + ["            " + l for l in cons]
@@ -62,15 +66,18 @@ class FlagMonitor(Monitor):
         self.pending = D.b_ite(rst, False, nxt)
 
 
-def mailbox_design(txd, rxd, contexts):
+def mailbox_design(txd, rxd, contexts, dq=False):
     lines = [HEADER, "class W(cohdl.Entity):", "    clk = Port.input(Bit)", "    reset = Port.input(Bit)",
              "    p_try = Port.input(Bit)", "    c_ready = Port.input(Bit)", f"    payload = Port.input(Unsigned[{PW}])",
-             "    sent = Port.output(Bit, default=False)", "    recv = Port.output(Bit, default=False)",
+             "    sent = Port.output(Bit, default=False)", "    recv = Port.output(Bit, default=False)", "    obs_clear = Port.output(Bit, default=False)", "    obs_set = Port.output(Bit, default=False)",
              f"    recv_data = Port.output(Unsigned[{PW}], default=Null)", "    def architecture(self):",
              "        ctx = std.SequentialContext(std.Clock(self.clk), std.Reset(self.reset))",
              f"        mb = std.Mailbox[Unsigned[{PW}]]({_delay_args(txd, rxd)})"]
     prod = ["if self.p_try and mb.is_clear():", "    mb.send(self.payload)", "    self.sent ^= True"]
     cons = ["if self.c_ready and mb.is_set():", "    self.recv_data <<= mb.data()", "    mb.clear()", "    self.recv ^= True"]
+    if dq:
+        prod = ["self.obs_clear ^= mb.is_clear()"] + prod
+        cons = ["self.obs_set ^= mb.is_set()"] + cons
     if contexts == 2:
         lines += ["        @ctx", "        def producer():"] + ["            " + l for l in prod]
         lines += ["        @ctx", "        def consumer():"] + ["            " + l for l in cons]
@@ -127,6 +134,9 @@ def jobs(tier):
             continue  # delays are meant for two different contexts
         js.append((f"SyncFlag|tx={txd}|rx={rxd}|contexts={ctxs}", flag_design(txd, rxd, ctxs), {"reset": 1, "p_try": 1, "c_ready": 1}, ["obs_clear", "recv"], K, lambda c=ctxs: FlagMonitor(c == 1)))
         js.append((f"Mailbox|tx={txd}|rx={rxd}|contexts={ctxs}", mailbox_design(txd, rxd, ctxs), {"reset": 1, "p_try": 1, "c_ready": 1, "payload": PW}, ["sent", "recv", "recv_data"], K, MailboxMonitor))
+        if ctxs == 2:
+            js.append((f"SyncFlag|tx={txd}|rx={rxd}|repeated queries", flag_design(txd, rxd, ctxs, dq=True), {"reset": 1, "p_try": 1, "c_ready": 1}, ["obs_clear", "recv"], K, lambda: FlagMonitor(False)))
+            js.append((f"Mailbox|tx={txd}|rx={rxd}|repeated queries", mailbox_design(txd, rxd, ctxs, dq=True), {"reset": 1, "p_try": 1, "c_ready": 1, "payload": PW}, ["sent", "recv", "recv_data"], K, MailboxMonitor))
         js.append((f"Mailbox-progress|tx={txd}|rx={rxd}|contexts={ctxs}", mailbox_design(txd, rxd, ctxs), {"reset": 1, "p_try": 1, "c_ready": 1, "payload": PW}, ["sent", "recv", "recv_data"], 10, lambda: MailboxLiveness(10)))
     return js
 
